@@ -187,6 +187,11 @@ func (p *Prog) calleeName(call *ast.CallExpr) string {
 				return "builtin." + id.Name
 			}
 		}
+		if sel, ok := ast.Unparen(call.Fun).(*ast.SelectorExpr); ok {
+			if _, isb := p.Info.Uses[sel.Sel].(*types.Builtin); isb {
+				return "unsafe." + sel.Sel.Name
+			}
+		}
 		return ""
 	}
 	if fn.Pkg() != nil && fn.Pkg() != p.Pkg.Types {
